@@ -37,6 +37,8 @@ structure AJob where
 structure AState where
   jobs : List (Nat × AJob) := []
   queues : List (Nat × Unit) := []
+  /-- workers connected to the current server life -/
+  workers : List Nat := []
   maxJob : Nat := 0
   maxWorker : Nat := 0
   maxQueue : Nat := 0
@@ -63,10 +65,11 @@ def ATask.lose (w : Nat) (failure : Bool) (a : ATask) : ATask :=
   | _ => a
 
 def meaningStep (s : AState) : Record → AState
-  | .serverStart uid => { s with uid := uid }
-  | .workerConnected w _ => { s with maxWorker := max s.maxWorker w }
+  | .serverStart uid => { s with uid := uid, workers := [] }   -- a new server life starts without workers
+  | .workerConnected w _ => { s with maxWorker := max s.maxWorker w, workers := w :: s.workers }
   | .workerLost w reason =>
-    { s with jobs := alMap (fun j => { j with tasks := j.tasks.map (ATask.lose w reason.isFailure) }) s.jobs }
+    { s with jobs := alMap (fun j => { j with tasks := j.tasks.map (ATask.lose w reason.isFailure) }) s.jobs
+             workers := s.workers.filter (· != w) }
   | .submit job closed mf desc =>
     if closed then
       { s with jobs := alSet s.jobs job ⟨false, mf, desc.specTasks, 1⟩, maxJob := max s.maxJob job }
@@ -157,8 +160,9 @@ def recordOk (s : AState) : Record → Bool
     match alGet s.jobs job with
     | some j => !j.isOpen && j.tasks.all (·.st != .waiting)
     | none => false
-  | .taskStarted job task inst _ => -- task exists, has no outcome yet, instance ids increase
-    taskIs s (job, task) fun a => a.st == .waiting && (match a.inst with | some i => i < inst | none => true)
+  | .taskStarted job task inst ws => -- task exists, has no outcome yet, instance ids increase, workers have connected
+    (taskIs s (job, task) fun a => a.st == .waiting && (match a.inst with | some i => i < inst | none => true)) &&
+    ws.all (fun w => decide (w ≤ s.maxWorker))
   | .taskFinished job task =>       -- Started before Finished, one outcome per task
     taskIs s (job, task) fun a => a.st == .waiting && a.inst.isSome
   | .taskFailed job task =>         -- one outcome per task (a failure *before* the first start is allowed)
@@ -166,6 +170,8 @@ def recordOk (s : AState) : Record → Bool
   | .tasksCanceled ids => ids.all (fun id => taskIs s id fun a => a.st == .waiting) && decide ids.Nodup
   | .tasksAborted ids => ids.all (fun id => taskIs s id fun a => a.st == .waiting) && decide ids.Nodup
   | .queueCreated q => (alGet s.queues q).isNone
+  | .workerConnected w _ => decide (s.maxWorker < w)   -- worker ids are fresh (C11)
+  | .workerLost w _ => s.workers.contains w            -- only a connected worker is lost, once
   | _ => true
 
 def producibleFrom (s : AState) : List Record → Bool
@@ -193,26 +199,36 @@ instance : Decidable (NoFailBeforeStart J) := inferInstanceAs (Decidable (_ = tr
 
 /-! ### what C10 compares: the restored server state against `meaning` -/
 
-/-- a restored job as C10 reads it: id, open flag, max_fails, number of submits, task table with outcomes -/
-def RestoredJob.view (j : RestoredJob) : Nat × Bool × Option Nat × Nat × List (Nat × Outcome) :=
-  (j.id, j.isOpen, j.maxFails, j.nSubmits, j.tasks.map fun t => (t.1, t.2.outcome))
-
-def AJob.view (id : Nat) (j : AJob) : Nat × Bool × Option Nat × Nat × List (Nat × Outcome) :=
-  (id, j.isOpen, j.maxFails, j.nSubmits, j.tasks.map fun a => (a.id, a.st))
-
-/-- every task the restored `TaskSubmit` batches hand to the core: (job, task, dependencies), in order -/
-def batchPending (bs : List Batch) : List (Nat × Nat × List Nat) :=
-  bs.flatMap fun b => b.tasks.map fun t => (b.job, t.1, t.2)
-
-/-- every task without recorded outcome, with its original dependencies minus the completed ones -/
-def AState.pending (A : AState) : List (Nat × Nat × List Nat) :=
-  A.jobs.flatMap fun ja => ja.2.pending.map fun p => (ja.1, p.task, p.deps)
-
 /-- the job counters that agree with the task states (nothing is running right after a restart) -/
 def AJob.counters (j : AJob) : JCounters :=
   ⟨0, j.count .finished, j.count .failed, j.count .canceled, j.count .aborted⟩
 
-/-- jobs, open flags, outcomes, pending tasks with remaining deps, queues, id counters, uid -/
+/-- a restored job as C10 reads it: id, open flag, max_fails, number of submits, task table with outcomes, counters -/
+def RestoredJob.view (j : RestoredJob) : Nat × Bool × Option Nat × Nat × List (Nat × Outcome) × JCounters :=
+  (j.id, j.isOpen, j.maxFails, j.nSubmits, j.tasks.map (fun t => (t.1, t.2.outcome)), j.counters)
+
+/-- … and what the journal recorded about it (counters = the counts of the recorded outcomes) -/
+def AJob.view (id : Nat) (j : AJob) : Nat × Bool × Option Nat × Nat × List (Nat × Outcome) × JCounters :=
+  (id, j.isOpen, j.maxFails, j.nSubmits, j.tasks.map (fun a => (a.id, a.st)), j.counters)
+
+/-- `(instance id, crash counter)` the core gives a task of batch `b` (`handle_new_tasks`: the adjust entry, else 0, 0) -/
+def Batch.adjusted (b : Batch) (t : Nat) : Nat × Nat :=
+  match alGet b.adjust t with
+  | some ic => ic
+  | none => (0, 0)
+
+/-- every task the restored `TaskSubmit` batches hand to the core:
+(job, task, dependencies, instance id, crash counter), in order -/
+def batchPending (bs : List Batch) : List (Nat × Nat × List Nat × Nat × Nat) :=
+  bs.flatMap fun b => b.tasks.map fun t => (b.job, t.1, t.2, (b.adjusted t.1).1, (b.adjusted t.1).2)
+
+/-- every task without recorded outcome, with its original dependencies minus the completed ones, the next instance
+id (highest recorded + 1) and the recorded number of crashes -/
+def AState.pending (A : AState) : List (Nat × Nat × List Nat × Nat × Nat) :=
+  A.jobs.flatMap fun ja => ja.2.pending.map fun p => (ja.1, p.task, p.deps, p.inst, p.crashes)
+
+/-- jobs, open flags, outcomes, pending tasks with remaining deps / next instance / crash count, queues, id counters,
+uid -/
 structure RefinesCore (R : Restorer) (X : Restored) (A : AState) : Prop where
   jobs : X.jobs.map RestoredJob.view = A.jobs.map fun ja => ja.2.view ja.1
   pending : batchPending X.batches = A.pending
@@ -220,12 +236,8 @@ structure RefinesCore (R : Restorer) (X : Restored) (A : AState) : Prop where
   ids : counters R = ⟨A.maxJob + 1, A.maxWorker + 1, A.maxQueue + 1⟩
   uid : R.uid = A.uid
 
-/-- "job counters agree with the task states" for the jobs selected by `p` -/
-def RefinesCounters (p : AJob → Bool) (X : Restored) (A : AState) : Prop :=
-  ∀ j ∈ X.jobs, ∀ aj, alGet A.jobs j.id = some aj → p aj = true → j.counters = aj.counters
-
 /-- the full-strength C10 refinement statement for one journal -/
 def RestoreRefines (J : List Record) : Prop :=
-  ∃ R X, restore J = .ok (R, X) ∧ RefinesCore R X (meaning J) ∧ RefinesCounters (fun _ => true) X (meaning J)
+  ∃ R X, restore J = .ok (R, X) ∧ RefinesCore R X (meaning J)
 
 end HqModel.Journal
